@@ -38,6 +38,19 @@ func (r *Rand) Intn(n int) int {
 // Chance is true with probability num/den.
 func (r *Rand) Chance(num, den int) bool { return r.Intn(den) < num }
 
+// Perm returns a seeded permutation of 0..n-1.
+func (r *Rand) Perm(n int) []int {
+	p := make([]int, n)
+	for i := range p {
+		p[i] = i
+	}
+	for i := n - 1; i > 0; i-- {
+		j := r.Intn(i + 1)
+		p[i], p[j] = p[j], p[i]
+	}
+	return p
+}
+
 func Pick[T any](r *Rand, xs []T) T { return xs[r.Intn(len(xs))] }
 
 // ---------------------------------------------------------------------------
